@@ -127,12 +127,21 @@ def main():
     t0 = time.time()
     timeout_ms = 20000
     P = programs(tier)
+    if tier != "quick":
+        # the thorough tier works under a wall budget: a seeded shuffle makes the explored prefix a uniform sample of the grid
+        import random
+        random.Random(int(os.environ.get("VERIF_SEED", "1"))).shuffle(P)
     ex = Extractor()
     results = []
     # the compiled circuits are only kept for one chunk of pairs at a time (the thorough tier has 140 000 pairs)
-    CH = 4000
+    CH = 1000
+    wall_budget = 1500 if tier != "quick" else 10 ** 9  # thorough: stop taking new chunks after 25 min and report what was covered
+    not_explored = 0
     with mp.Pool(min(16, os.cpu_count() or 4)) as pool:
         for lo in range(0, len(P), CH):
+            if time.time() - t0 > wall_budget:
+                not_explored = len(P) - lo
+                break
             jobs = []
             for p in P[lo:lo + CH]:
                 rc = ex.req({"cmd": "compile", "src": p["const_src"], "sizes": []})
@@ -193,6 +202,7 @@ def main():
     cov = {"programs": len(P), "disagreements_checked": n_sat + n_err, "samples": samples or [{"note": "none"}],
            "explanation": "program pairs (folded vs run-time) compiled by the real compiler; the folded circuit is proved equal to the run-time circuit with the constants substituted, for ALL values of the free input; constants from a boundary grid",
            "pairs_unsat": n_unsat, "pairs_sat": n_sat, "pairs_unknown": n_unknown, "compile_errors": n_err, "disagreement_classes": {c: len(v) for c, v in classes.items()},
+           "pairs_not_explored_time_budget": not_explored,
            "bounds": ["types " + ("int8,uint8,int32,uint9,int64,uint64" if tier == "quick" else "intN/uintN for N in {1,7,8,9,31,32,33,63,64}"),
                       "constants from the boundary grid {0,1,2,3,max,max-1,min,min+1,-1,-2,-3,7,-7, top-bit patterns} (every 3rd pair in quick; every 12th pair, but all 16 types and all 7 consumers, in thorough)", "consumers: returned as is, + a, < a, == a (thorough adds / a, << 1, widening cast)"],
            "outside_the_claim": ["constants wider than 64 bits (cannot be written as cast decimal literals; the large path builds and evaluates the same circuits)", "string/array constants", "operands of different declared types"],
